@@ -25,7 +25,7 @@ ASSUMPTIONS = A0 + ["the master declares only variables, coupling constraints an
                     "templates do not use signals/bspline or grid='inf' constraints (not modelled for clones)"]
 RULE = ("1-3 stages x {directly declared | cloned from one template with overridden t0/T (fixed or FreeTime) and per-clone "
         "extra constraints / parameter values} x per-stage method MS|SS|DC, intg, N, M, grid, free/fixed/param horizon, "
-        "explicit quadrature states, integrals with time inside, sums, at_t0/at_tf terms x master variables x 0-3 coupling "
+        "explicit quadrature states, integrals with time inside, sums, at_t0/at_tf terms x master variables and parameters x 0-3 coupling "
         "constraints (stage boundary terms, integrals, T, t0, tf) x master objective terms; optional decoy master using the "
         "same template first.  Compared: objective value and all rows; sol(stage).sample read-back of per-stage starting values after a zero-iteration solve.  non-trivial = at least two stages or a clone; "
         "distinct by hash of the multi-stage case")
@@ -75,6 +75,9 @@ def cterm(rng, mc, cases):
     r = rng.random()
     if mc["nmv"] and r < 0.25:
         return ["mv", rng.randrange(mc["nmv"])]
+    if mc.get("mpv") and r < 0.4:
+        return ["*", ["mp", rng.randrange(len(mc["mpv"]))], ["mv", rng.randrange(mc["nmv"])]] if mc["nmv"] and r < 0.33 \
+            else ["mp", rng.randrange(len(mc["mpv"]))]
     i = rng.randrange(len(cases))
     return ["st", i, wrap_globals(gen.pterm(rng, cases[i], OPTS))]
 
@@ -96,6 +99,8 @@ def gen_multi(rng, opts):
     mode = rng.choice(["direct", "clone", "clone", "mixed"])
     mc = {"stages": [], "template": None, "nmv": rng.choice([0, 0, 1, 2]), "coupling": [], "mobj": [],
           "decoy": False}
+    # parameters declared on the master (values set with master.set_value)
+    mc["mpv"] = [jq(dyadic_nz(rng, -2, 2, 2)) for _ in range(rng.choice([0, 1, 1, 2]))]
     if mode != "direct":
         mc["template"] = gen_stage_case(rng, opts)
         mc["decoy"] = rng.random() < 0.5
@@ -140,6 +145,9 @@ def gen_mpoint(rng, mc):
 
 
 # ------------------------------------------------------------------ Coq side
+MPV = []      # values of the master parameters of the case being printed
+
+
 def cexpr_coq(e):
     op = e[0]
     if op == "c":
@@ -148,6 +156,9 @@ def cexpr_coq(e):
         return "(CSt %d%%nat %s)" % (e[1], CS.pexpr_coq(e[2]))
     if op == "mv":
         return "(CV %d%%nat)" % e[1]
+    if op == "mp":
+        # a master parameter behaves like the number written in (C09)
+        return "(CC %s)" % CS.cq(Fr(MPV[e[1]]))
     if op in ("+", "-", "*", "/"):
         return "(%s %s %s)" % ({"+": "CAdd", "-": "CSub", "*": "CMul", "/": "CDiv"}[op], cexpr_coq(e[1]), cexpr_coq(e[2]))
     if op == "neg":
@@ -179,6 +190,8 @@ def multi_coq(idx, mc, inputs):
         else:
             out.append("Definition %s : ocp := %s.\n" % (nm, CS.case_coq(eff_case(mc, i), inputs[i])))
         names.append(nm)
+    global MPV
+    MPV = mc.get("mpv", [])
     cons = ["(mkCConstr %d%%nat %s %s %s)" % (j, "REq" if c["rel"] == "eq" else "RLe", cexpr_coq(c["lhs"]), cexpr_coq(c["rhs"]))
             for j, c in enumerate(mc["coupling"])]
     out.append("Definition m%d : multi := mkMulti %s %s %s.\n" % (
@@ -264,7 +277,14 @@ def build_multi(mc, rockit):
             if st.get("param_values") is not None:
                 CS.apply_param_values(B, eff_case(mc, i))
         Bs.append(B)
-    mv = [master.variable() for _ in range(mc["nmv"])]
+    # declaration order on the master: parameters and variables interleaved
+    mv, mp = [], []
+    for j in range(max(mc["nmv"], len(mc.get("mpv", [])))):
+        if j < len(mc.get("mpv", [])):
+            mp.append(master.parameter())
+            master.set_value(mp[-1], float(Fr(mc["mpv"][j])))
+        if j < mc["nmv"]:
+            mv.append(master.variable())
 
     def cex(e):
         op = e[0]
@@ -275,6 +295,8 @@ def build_multi(mc, rockit):
             return B.pex(e[2], B.ocp if mc["stages"][e[1]]["case"] is None else None)
         if op == "mv":
             return mv[e[1]]
+        if op == "mp":
+            return mp[e[1]]
         if op == "+":
             return cex(e[1]) + cex(e[2])
         if op == "-":
